@@ -215,6 +215,103 @@ def _uses_function(fn, cls_name, depth=0, seen=None):
     return any(_uses_function(nf, cls_name, depth + 1, seen) for nf, _ in getattr(fn, "next_functions", ()))
 
 
+def input_gradients(ctx, rng):
+    """Generic (autograd) kernel path: d k(x1, x2) / d x1 and / d x2 through the public call vs autograd of an
+    independent dense re-implementation — for x2 a different point set, a point set sharing a row with x1, and a
+    DIFFERENT tensor holding exactly the values of x1 (aliasing family: the derivative w.r.t. the second argument
+    must be attributed to the second argument); gradient required on x1 only, x2 only, both."""
+    import numpy as np
+    import torch
+    import gpytorch.kernels as GK
+    reps = 4 if ctx.quick else 40
+    for rep in range(reps):
+        for fam in ("rbf", "matern3", "matern5", "rq", "periodic"):
+            d = rng.randint(1, 3)
+            ard = d > 1 and rng.random() < 0.5
+            n1 = rng.choice([x for x in (2, 3, 4, 5) if x != d])
+            ls = [K5.logu(rng, 0.4, 2.5) for _ in range(d if ard else 1)]
+            alpha, per = K5.logu(rng, 0.3, 5.0), [K5.logu(rng, 0.8, 3.0) for _ in range(d if ard else 1)]
+            with_scale = rng.random() < 0.4
+            osc = K5.logu(rng, 0.3, 3.0)
+            x1 = K5.rand_x(rng, n1, d)
+            for mode in ("distinct", "shared-row", "equal-clone"):
+                if mode == "distinct":
+                    x2 = K5.rand_x(rng, rng.choice([x for x in (2, 3, 4, 5, 6) if x not in (n1, d)]), d)
+                elif mode == "shared-row":
+                    x2 = K5.rand_x(rng, n1 + 1, d)
+                    x2[0] = list(x1[-1])
+                else:
+                    x2 = [list(r) for r in x1]
+                for req in ("x1", "x2", "both"):
+                    kw = {"ard_num_dims": d if ard else None}
+                    if fam == "rbf":
+                        base = GK.RBFKernel(**kw)
+                    elif fam.startswith("matern"):
+                        base = GK.MaternKernel(nu=int(fam[6:]) / 2.0, **kw)
+                    elif fam == "rq":
+                        base = GK.RQKernel(**kw)
+                    else:
+                        base = GK.PeriodicKernel(**({"ard_num_dims": d} if ard else {}))
+                    base = base.double()
+                    base.lengthscale = _t([ls])
+                    if fam == "rq":
+                        base.alpha = _t([alpha])
+                    if fam == "periodic":
+                        base.period_length = _t([per])
+                    k = base
+                    if with_scale:
+                        k = GK.ScaleKernel(base).double()
+                        k.outputscale = _t(osc)
+                    X1 = _t(x1, requires_grad=req in ("x1", "both"))
+                    X2 = _t(x2, requires_grad=req in ("x2", "both"))
+                    go = _t(K5.rand_x(rng, len(x1), len(x2)))
+                    with warnings.catch_warnings():
+                        warnings.simplefilter("ignore")
+                        out = k(X1, X2).to_dense()
+                    ins = [t for t in (X1, X2) if t.requires_grad]
+                    gs = torch.autograd.grad(out, ins, grad_outputs=go, allow_unused=True)
+                    gs = [torch.zeros_like(t) if g is None else g for g, t in zip(gs, ins)]
+                    # dense reference
+                    R1 = _t(x1, requires_grad=req in ("x1", "both"))
+                    R2 = _t(x2, requires_grad=req in ("x2", "both"))
+                    lt = base.lengthscale.detach().reshape(-1)
+                    diff = R1.unsqueeze(-2) - R2.unsqueeze(-3)
+                    if fam == "periodic":
+                        pt = base.period_length.detach().reshape(-1)
+                        ref = torch.exp(-2.0 * ((torch.sin(math.pi * diff / pt) ** 2) / lt).sum(-1))
+                    else:
+                        r2 = ((diff / lt) ** 2).sum(-1)
+                        if fam == "rbf":
+                            ref = torch.exp(-0.5 * r2)
+                        elif fam == "rq":
+                            al = base.alpha.detach().reshape(())
+                            ref = (1 + r2 / (2 * al)) ** (-al)
+                        else:
+                            nu2 = int(fam[6:])
+                            r = torch.where(r2 > 0, torch.sqrt(torch.where(r2 > 0, r2, torch.ones_like(r2))), torch.zeros_like(r2))
+                            sq = math.sqrt(nu2) * r
+                            ref = ({3: 1 + sq, 5: 1 + sq + math.sqrt(nu2) ** 2 * r2 / 3}[nu2]) * torch.exp(-sq)
+                    if with_scale:
+                        ref = k.outputscale.detach() * ref
+                    rins = [t for t in (R1, R2) if t.requires_grad]
+                    rg = torch.autograd.grad(ref, rins, grad_outputs=go)
+                    payload = {"kernel": fam, "ard": ard, "scale": osc if with_scale else None, "ls": ls, "alpha": alpha,
+                               "period": per, "x1": x1, "x2": x2, "mode": mode, "requires_grad": req, "grad_output": go.tolist()}
+                    ctx.case({"ig": payload}, sample={"function": "d kernel / d inputs (generic path)", "kernel": fam,
+                                                      "mode": mode, "requires_grad": req})
+                    ctx.count(f"input_grad_{mode}")
+                    sc = max(1.0, max(float(g.abs().max()) for g in rg))
+                    vt = 1e-8 if not fam.startswith("matern") else 1e-6       # sqrt-of-rounding at coincident rows
+                    if not np.allclose(out.detach().numpy(), ref.detach().numpy(), rtol=1e-8, atol=vt):
+                        ctx.fail(f"generic-path/value/{fam}/{mode}", f"{fam} ({mode}, grad on {req}): value differs from the dense "
+                                 f"formula by {(out.detach() - ref.detach()).abs().max().item():.3e}", payload)
+                    for nm, g, r_ in zip([t for t in ("x1", "x2") if req in (t, "both")], gs, rg):
+                        if not np.allclose(g.numpy(), r_.numpy(), rtol=1e-6, atol=1e-7 * sc):
+                            ctx.fail(f"generic-path/d-{nm}/{fam}/{mode}",
+                                     f"{fam} ({mode}, grad required on {req}): d(Σ go·k)/d{nm} is {g.tolist()}, the dense formula "
+                                     f"gives {r_.tolist()}", payload)
+
+
 # ------------------------------------------------------------------------------------------- predictions
 
 def prediction_gradients(ctx, rng):
@@ -229,6 +326,10 @@ def prediction_gradients(ctx, rng):
         X = _t(K5.rand_x(rng, n, d))
         y = _t([rng.gauss(0, 1) for _ in range(n)])
         Xs = _t(K5.rand_x(rng, m, d))
+        coincide = fam != "matern1" and rng.random() < 0.4     # test inputs EQUAL to training inputs (a different tensor)
+        if coincide:
+            Xs = X[:m].clone()
+        ctx.count("pred_coincident_test_inputs" if coincide else "pred_generic_test_inputs")
         wm = _t([rng.gauss(0, 1) for _ in range(m)])
         wv = _t([rng.gauss(0, 1) for _ in range(m)])
         ell = [K5.logu(rng, 0.4, 2.0) for _ in range(d if ard else 1)]
@@ -273,9 +374,9 @@ def prediction_gradients(ctx, rng):
                  sample={"function": "ExactGP prediction d/dx*", "kernel": fam, "n": n, "m": m, "d": d})
         sc = max(1.0, float(fd.abs().max()))
         if not np.allclose(g.numpy(), fd.numpy(), rtol=1e-5, atol=1e-6 * sc):
-            ctx.fail(f"ExactGP-predict/d-test-inputs/{fam}",
+            ctx.fail(f"ExactGP-predict/d-test-inputs/{fam}" + ("/coincident" if coincide else ""),
                      f"gradient of Σw·mean+Σv·variance w.r.t. test inputs: autograd {g.tolist()} vs central differences {fd.tolist()}",
-                     {"kernel": fam, "X": X.tolist(), "y": y.tolist(), "Xs": Xs.tolist(), "ell": ell, "noise": noise,
+                     {"kernel": fam, "coincident_test_inputs": coincide, "X": X.tolist(), "y": y.tolist(), "Xs": Xs.tolist(), "ell": ell, "noise": noise,
                       "outputscale": os_, "wm": wm.tolist(), "wv": wv.tolist()})
 
 
@@ -390,6 +491,30 @@ def natural(ctx, rng, q):
                 ctx.fail("_NaturalToMuVarSqrt.backward/expectation-gradient",
                          f"returned (d/deta1, d/deta2) differ from autograd of (eta1,eta2) -> (eta1, chol(eta2-eta1 eta1^T)) by "
                          f"{(g1 - r1).abs().max().item():.3e}, {(g2 - r2).abs().max().item():.3e} (tol {tol:.1e})", desc)
+            # ---- only ONE of the two outputs is used downstream (variance-only / mean-only objectives): the
+            #      covariance still contributes -2 (dl/dS) mu to the gradient w.r.t. eta1
+            zero1, zero2 = torch.zeros_like(r1), torch.zeros_like(r2)
+            for which, outs, gos, ref in (("covariance-only", [L_out], [gL], None), ("mean-only", [m_out], [gmu], (gmu, zero2))):
+                a_ = nat_mean.clone().requires_grad_(True)
+                c_ = nat_covar.clone().requires_grad_(True)
+                mo, Lo = _NaturalToMuVarSqrt.apply(a_, c_)
+                res = torch.autograd.grad([Lo] if which == "covariance-only" else [mo], [a_, c_], grad_outputs=gos,
+                                          allow_unused=True)
+                p1 = zero1 if res[0] is None else res[0]
+                p2 = zero2 if res[1] is None else res[1]
+                if ref is None:
+                    e1 = mu.clone().requires_grad_(True)
+                    e2 = (Sig + mu.unsqueeze(-1) @ mu.unsqueeze(-2)).clone().requires_grad_(True)
+                    Lc = torch.linalg.cholesky(e2 - e1.unsqueeze(-1) @ e1.unsqueeze(-2))
+                    q1, q2 = torch.autograd.grad(Lc, [e1, e2], grad_outputs=gL)
+                    ref = (q1, 0.5 * (q2 + q2.transpose(-1, -2)))
+                ctx.case({"nat-partial": which, "d": desc}, sample={"function": "_NaturalToMuVarSqrt.backward", "outputs_used": which})
+                if (p1 - ref[0]).abs().max() > tol or (p2 - ref[1]).abs().max() > tol:
+                    ctx.fail(f"_NaturalToMuVarSqrt.backward/{which}",
+                             f"only the {which.split('-')[0]} output is used: returned (d/deta1, d/deta2) differ from the "
+                             f"expectation-parameter gradient by {(p1 - ref[0]).abs().max().item():.3e}, "
+                             f"{(p2 - ref[1]).abs().max().item():.3e}" + (" (d/deta1 is None)" if res[0] is None else ""),
+                             dict(desc, outputs_used=which))
             # ---- Lean model on the very tensors the real backward sees
             Lr = L_out.detach()
             Cr = torch.linalg.solve_triangular(Lr, torch.eye(n, dtype=torch.float64).expand_as(Lr), upper=False)
@@ -402,51 +527,98 @@ def natural(ctx, rng, q):
                 work.append((h1, h2, sel(dS).numpy(), sel(g1).numpy(), sel(g2).numpy(), cond, desc))
             # ---- tril-natural: same natural gradient for eta1; the second output is the tangent of
             #      theta_cov -> C (C^T C = -2 theta_cov, C lower) in the direction of the natural gradient
-            Cm = torch.linalg.inv(torch.linalg.cholesky(Sig))   # = inv(L): lower, C^T C = Sigma^{-1}
-            a2 = nat_mean.clone().requires_grad_(True)
-            c2 = Cm.clone().requires_grad_(True)
-            m2, L2 = _TrilNaturalToMuVarSqrt.apply(a2, c2)
-            t1, t2 = torch.autograd.grad([m2, L2], [a2, c2], grad_outputs=[gmu, gL])
+            #      natural_tril_mat = D·inv(chol Sigma) for ANY sign pattern D on the diagonal is a legal parameter
+            #      (C^T C = Sigma^{-1}); the returned factor is then chol(Sigma)·D (negative diagonal entries)
+            for signs in ("positive", "mixed"):
+                Dg = torch.ones(n, dtype=torch.float64)
+                if signs == "mixed":
+                    for i in rng.sample(range(n), rng.randint(1, n)):
+                        Dg[i] = -1.0
+                Cm = Dg.unsqueeze(-1) * torch.linalg.inv(torch.linalg.cholesky(Sig))   # lower, C^T C = Sigma^{-1}
+                a2 = nat_mean.clone().requires_grad_(True)
+                c2 = Cm.clone().requires_grad_(True)
+                m2, L2 = _TrilNaturalToMuVarSqrt.apply(a2, c2)
+                t1, t2 = torch.autograd.grad([m2, L2], [a2, c2], grad_outputs=[gmu, gL])
+                # reference: explicit map (eta1, eta2) -> (eta1, chol(eta2 - eta1 eta1^T)·D)
+                e1 = mu.clone().requires_grad_(True)
+                e2 = (Sig + mu.unsqueeze(-1) @ mu.unsqueeze(-2)).clone().requires_grad_(True)
+                Ld = torch.linalg.cholesky(e2 - e1.unsqueeze(-1) @ e1.unsqueeze(-2)) * Dg
+                s1, s2 = torch.autograd.grad([e1 * 1.0, Ld], [e1, e2], grad_outputs=[gmu, gL])
+                s2 = 0.5 * (s2 + s2.transpose(-1, -2))
 
-            def C_of(theta):
-                return torch.linalg.inv(torch.linalg.cholesky(torch.linalg.inv(-2.0 * theta)))
-            _, jv = torch.autograd.functional.jvp(C_of, (nat_covar,), (r2,))
-            ctx.case({"tril": desc}, sample={"function": "_TrilNaturalToMuVarSqrt.backward", "n": n, "batch": batch})
-            tol2 = 1e-8 * cond ** 2 * max(1.0, float(jv.abs().max()))
-            if not torch.allclose(m2, mu, atol=1e-9 * cond) or (t1 - r1).abs().max() > tol or (t2 - jv).abs().max() > tol2:
-                ctx.fail("_TrilNaturalToMuVarSqrt.backward",
-                         f"(d/deta1, tangent of C) differ from the reference by {(t1 - r1).abs().max().item():.3e}, "
-                         f"{(t2 - jv).abs().max().item():.3e} (tol {tol:.1e}, {tol2:.1e})", desc)
-    # through the public modules: gradient of a loss of (mean, covariance) lands in natural_vec.grad / natural_mat.grad
-    for rep in range(2 if ctx.quick else 10):
+                def C_of(theta, Dg=Dg):
+                    return Dg.unsqueeze(-1) * torch.linalg.inv(torch.linalg.cholesky(torch.linalg.inv(-2.0 * theta)))
+                _, jv = torch.autograd.functional.jvp(C_of, (nat_covar,), (s2,))
+                dsc = dict(desc, tril_diagonal_signs=Dg.tolist())
+                ctx.case({"tril": dsc}, sample={"function": "_TrilNaturalToMuVarSqrt.backward", "n": n, "batch": batch,
+                                                "diagonal": signs})
+                ctx.count(f"tril_diag_{signs}")
+                tol2 = 1e-8 * cond ** 2 * max(1.0, float(jv.abs().max()))
+                okf = torch.allclose(m2, mu, atol=1e-9 * cond) and \
+                    torch.allclose(L2 @ L2.transpose(-1, -2), Sig, atol=1e-9 * cond)
+                if not okf or (t1 - s1).abs().max() > tol or (t2 - jv).abs().max() > tol2:
+                    ctx.fail(f"_TrilNaturalToMuVarSqrt.backward/{signs}-diagonal",
+                             f"(forward ok: {okf}) (d/deta1, tangent of C) differ from the reference by "
+                             f"{(t1 - s1).abs().max().item():.3e}, {(t2 - jv).abs().max().item():.3e} (tol {tol:.1e}, {tol2:.1e})", dsc)
+    # through the public modules: gradient of a loss of (mean, covariance) lands in natural_vec.grad / natural_mat.grad.
+    # Objectives that use the mean only, the covariance only (weighted sum / trace / logdet / variance), or both;
+    # tril parameterisation with positive and with mixed-sign diagonals.
+    for rep in range(3 if ctx.quick else 15):
         n = rng.randint(2, 4)
         for cls in (NaturalVariationalDistribution, TrilNaturalVariationalDistribution):
-            dist = cls(n).double()
-            Sig, mu = _rand_spd(rng, n), _t([rng.gauss(0, 1) for _ in range(n)])
-            prec = torch.linalg.inv(Sig)
-            with torch.no_grad():
-                dist.natural_vec.copy_(prec @ mu)
+            for objective in ("both", "covariance-weighted", "covariance-logdet", "variance-only", "mean-only"):
+                signs = "mixed" if (cls is TrilNaturalVariationalDistribution and rng.random() < 0.5) else "positive"
+                dist = cls(n).double()
+                Sig, mu = _rand_spd(rng, n), _t([rng.gauss(0, 1) for _ in range(n)])
+                prec = torch.linalg.inv(Sig)
+                Dg = torch.ones(n, dtype=torch.float64)
+                if signs == "mixed":
+                    for i in rng.sample(range(n), rng.randint(1, n)):
+                        Dg[i] = -1.0
+                with torch.no_grad():
+                    dist.natural_vec.copy_(prec @ mu)
+                    if cls is NaturalVariationalDistribution:
+                        dist.natural_mat.copy_(-0.5 * prec)
+                    else:
+                        dist.natural_tril_mat.copy_(Dg.unsqueeze(-1) * torch.linalg.inv(torch.linalg.cholesky(Sig)))
+                w, W = _t([rng.gauss(0, 1) for _ in range(n)]), _rand_spd(rng, n, 0.0)
+                p = dist()
+                Sv = Sig.clone().requires_grad_(True)
+                mv = mu.clone().requires_grad_(True)
+
+                def obj(m_, S_):
+                    if objective == "both":
+                        return (w * m_).sum() + (W * S_).sum()
+                    if objective == "covariance-weighted":
+                        return (W * S_).sum()
+                    if objective == "covariance-logdet":
+                        return torch.logdet(S_) + S_.diagonal().sum()
+                    if objective == "variance-only":
+                        return (w * S_.diagonal()).sum()
+                    return (w * m_).sum()
+                loss = obj(p.mean, p.covariance_matrix if objective != "variance-only" else torch.diag_embed(p.variance))
+                loss.backward()
+                dm, dS = torch.autograd.grad(obj(mv, Sv), [mv, Sv], allow_unused=True)
+                dm = torch.zeros_like(mu) if dm is None else dm
+                dS = torch.zeros_like(Sig) if dS is None else 0.5 * (dS + dS.T)
+                want = dm - 2 * (dS @ mu)          # expectation-parameter gradient: dl/dmu - 2 (dl/dSigma) mu
+                got = dist.natural_vec.grad
+                got = torch.zeros_like(mu) if got is None else got
+                payload = {"module": cls.__name__, "objective": objective, "Sigma": Sig.tolist(), "mu": mu.tolist(),
+                           "w": w.tolist(), "W": W.tolist(), "tril_diagonal_signs": Dg.tolist()}
+                ctx.case(payload, sample={"function": cls.__name__ + ".forward/backward", "n": n, "objective": objective,
+                                          "diagonal": signs})
+                tolm = 1e-8 * float(torch.linalg.cond(Sig)) * max(1.0, float(want.abs().max()), float(dS.abs().max()))
+                if (got - want).abs().max() > tolm:
+                    ctx.fail(f"{cls.__name__}/natural_vec.grad/{objective}" + ("/negative-diagonal" if signs == "mixed" else ""),
+                             f"natural_vec.grad {got.tolist()} is not the gradient w.r.t. the first expectation parameter "
+                             f"{want.tolist()}" + (" (grad is None)" if dist.natural_vec.grad is None else ""), payload)
                 if cls is NaturalVariationalDistribution:
-                    dist.natural_mat.copy_(-0.5 * prec)
-                else:
-                    dist.natural_tril_mat.copy_(torch.linalg.inv(torch.linalg.cholesky(Sig)))
-            w, W = _t([rng.gauss(0, 1) for _ in range(n)]), _rand_spd(rng, n, 0.0)
-            p = dist()
-            loss = (w * p.mean).sum() + (W * p.covariance_matrix).sum()
-            loss.backward()
-            # expectation-parameter gradient of the same loss: dl/dmu - 2 (dl/dSigma) mu
-            want = w - 2 * (W @ mu)
-            ctx.case({"module": cls.__name__, "Sigma": Sig.tolist(), "mu": mu.tolist()},
-                     sample={"function": cls.__name__ + ".forward/backward", "n": n})
-            if (dist.natural_vec.grad - want).abs().max() > 1e-8 * float(torch.linalg.cond(Sig)) * max(1.0, float(want.abs().max())):
-                ctx.fail(f"{cls.__name__}/natural_vec.grad",
-                         f"natural_vec.grad {dist.natural_vec.grad.tolist()} is not the gradient w.r.t. the first expectation "
-                         f"parameter {want.tolist()}", {"Sigma": Sig.tolist(), "mu": mu.tolist(), "w": w.tolist(), "W": W.tolist()})
-            if cls is NaturalVariationalDistribution and \
-                    (dist.natural_mat.grad - W).abs().max() > 1e-8 * float(torch.linalg.cond(Sig)) * max(1.0, float(W.abs().max())):
-                ctx.fail("NaturalVariationalDistribution/natural_mat.grad",
-                         "natural_mat.grad is not the gradient w.r.t. the second expectation parameter",
-                         {"Sigma": Sig.tolist(), "mu": mu.tolist(), "w": w.tolist(), "W": W.tolist()})
+                    g2_ = dist.natural_mat.grad
+                    g2_ = torch.zeros_like(Sig) if g2_ is None else g2_
+                    if (g2_ - dS).abs().max() > tolm:
+                        ctx.fail(f"NaturalVariationalDistribution/natural_mat.grad/{objective}",
+                                 "natural_mat.grad is not the gradient w.r.t. the second expectation parameter", payload)
 
     def finish():
         for h1, h2, dS, g1, g2, cond, desc in work:
@@ -605,6 +777,7 @@ def correspondence(ctx):
             natural(ctx, ctx.rng("natural"), q),
             ciq(ctx, ctx.rng("ciq"), q)]
     prediction_gradients(ctx, ctx.rng("pred"))
+    input_gradients(ctx, ctx.rng("inputgrad"))
     lncdf(ctx, ctx.rng("lncdf"))
     q.run()
     ctx.count("driver_lines", len(q.k.lines) + len(q.l.lines))
